@@ -13,6 +13,7 @@ import (
 	"sort"
 	"sync"
 	"sync/atomic"
+	"unsafe"
 )
 
 var active atomic.Int32
@@ -155,6 +156,50 @@ func BeforeRLock(m *sync.RWMutex, label int32) {
 	s.lockWaits++
 	s.parkCur(label, en)
 }
+
+// BeforeWGWait is placed in front of sync.WaitGroup.Wait: the task parks in the
+// scheduler until the counter of the wait group is zero, so that the real Wait
+// that follows returns immediately. (Go 1.25's synctest treats a WaitGroup.Wait
+// as durably blocking only while the wait group is associated with the bubble;
+// under real concurrency between the waiter entering Wait and the task that
+// calls Done this was observed to leave the waiter blocked non-durably, which
+// stalls synctest.Wait and with it the whole simulation.) The counter is read
+// from the internal state word; if its layout is not the expected one the hook
+// does nothing and the wait blocks for real, as before.
+func BeforeWGWait(wg *sync.WaitGroup, label int32) {
+	if active.Load() == 0 || !wgLayoutOK {
+		return
+	}
+	s := S
+	tick(s, label)
+	en := func() bool { return wgCounter(wg) <= 0 }
+	if en() {
+		if s.countdown <= 0 {
+			s.preemptEnabled(label, en)
+		}
+		return
+	}
+	s.lockWaits++
+	s.parkCur(label, en)
+}
+
+func wgCounter(wg *sync.WaitGroup) int32 {
+	st := (*atomic.Uint64)(unsafe.Pointer(wg)).Load()
+	return int32(st >> 32)
+}
+
+var wgLayoutOK = func() bool {
+	var w sync.WaitGroup
+	if unsafe.Sizeof(w) < 12 || wgCounter(&w) != 0 {
+		return false
+	}
+	w.Add(3)
+	ok := wgCounter(&w) == 3
+	w.Add(-2)
+	ok = ok && wgCounter(&w) == 1
+	w.Add(-1)
+	return ok && wgCounter(&w) == 0
+}()
 
 type tryLocker interface {
 	TryLock() bool
